@@ -14,7 +14,25 @@ use core::{
 
 use fpdec_core::mul_pow_ten;
 
-use crate::Decimal;
+use crate::{Decimal, DecimalError};
+
+// Addition / subtraction of coefficients. Overflow must be signaled
+// independent of the build profile (i. e. also without overflow checks).
+#[inline(always)]
+fn add(x: i128, y: i128) -> i128 {
+    match x.checked_add(y) {
+        Some(res) => res,
+        None => panic!("{}", DecimalError::InternalOverflow),
+    }
+}
+
+#[inline(always)]
+fn sub(x: i128, y: i128) -> i128 {
+    match x.checked_sub(y) {
+        Some(res) => res,
+        None => panic!("{}", DecimalError::InternalOverflow),
+    }
+}
 
 macro_rules! impl_add_sub_decimal {
     (impl $imp:ident, $method:ident) => {
@@ -25,11 +43,11 @@ macro_rules! impl_add_sub_decimal {
             fn $method(self, rhs: Decimal) -> Self::Output {
                 match self.n_frac_digits.cmp(&rhs.n_frac_digits) {
                     Ordering::Equal => Self::Output {
-                        coeff: $imp::$method(self.coeff, rhs.coeff),
+                        coeff: $method(self.coeff, rhs.coeff),
                         n_frac_digits: self.n_frac_digits,
                     },
                     Ordering::Greater => Self::Output {
-                        coeff: $imp::$method(
+                        coeff: $method(
                             self.coeff,
                             mul_pow_ten(
                                 rhs.coeff,
@@ -39,7 +57,7 @@ macro_rules! impl_add_sub_decimal {
                         n_frac_digits: self.n_frac_digits,
                     },
                     Ordering::Less => Self::Output {
-                        coeff: $imp::$method(
+                        coeff: $method(
                             mul_pow_ten(
                                 self.coeff,
                                 rhs.n_frac_digits - self.n_frac_digits,
@@ -200,12 +218,12 @@ macro_rules! impl_add_sub_decimal_and_int {
             fn $method(self, rhs: $t) -> Self::Output {
                 if self.n_frac_digits == 0 {
                     Self::Output{
-                        coeff: $imp::$method(self.coeff, i128::from(rhs)),
+                        coeff: $method(self.coeff, i128::from(rhs)),
                         n_frac_digits: 0,
                     }
                 } else {
                     Self::Output{
-                        coeff: $imp::$method(self.coeff,
+                        coeff: $method(self.coeff,
                                              mul_pow_ten(
                                                 i128::from(rhs),
                                                 self.n_frac_digits)),
@@ -224,12 +242,12 @@ macro_rules! impl_add_sub_decimal_and_int {
             fn $method(self, rhs: Decimal) -> Self::Output {
                 if rhs.n_frac_digits == 0 {
                     Self::Output{
-                        coeff: $imp::$method(i128::from(self), rhs.coeff),
+                        coeff: $method(i128::from(self), rhs.coeff),
                         n_frac_digits: 0,
                     }
                 } else {
                     Self::Output{
-                        coeff: $imp::$method(mul_pow_ten(
+                        coeff: $method(mul_pow_ten(
                                                 i128::from(self),
                                                 rhs.n_frac_digits),
                                              rhs.coeff),
